@@ -165,3 +165,27 @@ COMMON_ASSUME = [
     "fail-closed extractors: a refactor that moves an anchor function or changes a recognised idiom is reported as anchor-lost (possible false alarm, never a silent pass)",
     "third-party crates (regex, aho-corasick, serde, serde_yaml, tracing, std) behave as documented",
 ]
+
+
+_sub_cache = {}
+
+
+def import_rules(rep, modname, rules, prefix=None):
+    """Run another property's rule module on a scratch report (once per process) and copy the instances of the named rules
+    into `rep` (same keys, so a violation is reported under this property as well)."""
+    import importlib
+    key = (modname, rep.tier)
+    if key not in _sub_cache:
+        sub = Report(modname.upper(), rep.tier)
+        importlib.import_module(modname).run(sub)
+        _sub_cache[key] = sub
+    sub = _sub_cache[key]
+    n = 0
+    for i in sub.instances:
+        if i.rule in rules or (i.rule == "INTERNAL"):
+            rep.instances.append(Instance(i.rule, i.key, i.site, i.what, i.status, i.detail))
+            n += 1
+    for r in rules:
+        if r in sub.rules:
+            rep.rules[r] = sub.rules[r] + " [shared with %s]" % modname.upper()
+    return n
